@@ -23,7 +23,7 @@ ANCHORS = ['penman.layout:node_contexts', 'penman.layout:appears_inverted',
 MIN_EVAL = {'quick': 3000, 'thorough': 100000}
 REQUIRED_COUNTERS = ['wf_trees', 'feature:inverted-reentrancy', 'feature:conceptless-with-edges',
                      'requeried_after_twin', 'layout_twins']
-MODELS_RANDOM = ['default', 'amr', 'mini', 'default', 'amr', 'noop', 'inv'] + [f'rand{i}' for i in range(6)]
+MODELS_RANDOM = ['default', 'amr', 'mini', 'default', 'amr', 'noop', 'inv', 'both', 'prefix'] + [f'rand{i}' for i in range(6)]
 
 
 def cases(ctx):
